@@ -21,9 +21,13 @@ def r09_1(run):
         raise AnalysisError(f"{fi.short}: loop over self.variables not found")
     var = [x.id for x in ast.walk(loops[0].target) if isinstance(x, ast.Name)][-1]
     raises = [n for n in own_nodes(fi.node) if isinstance(n, ast.Raise) and n.exc is not None and "InvalidBackprop" in norm(n.exc)]
-    if not raises:
-        raise AnalysisError(f"{fi.short}: `raise InvalidBackprop` not found")
     bv = calls_named(fi.node, "backward_var")
+    if not raises:
+        # the mechanism itself is gone from the per-operand loop: name that, do not refuse the tree
+        run.ob("R09.1", loc(fi, loops[0]), fi.short, f"emptiness test of {var}._ops raises InvalidBackprop and dominates backward_var", False,
+               "Operation.backward no longer raises InvalidBackprop: the per-operand staleness test is what stops back-propagation into a partially "
+               "cleared graph (a test elsewhere, e.g. per tensor before its creator is called, does not see an operand that was cleared and re-used)")
+        return
     if not bv:
         raise AnalysisError(f"{fi.short}: backward_var call not found")
     nb = cfg.stmt_node_containing(bv[0])
